@@ -92,7 +92,7 @@ open_(['C04', 'C06', 'C16', 'C14'], r'(reuse\.[a-z\-]+|resolve\.status|[a-z]+\.r
 open_(['C06'], r'resolve\.status\.OPTIMAL:.*',
       'after changeRange*/changeLhs/changeRhs made a nonbasic row free (or relaxed its active side to infinity) the warm-started solve keeps the row nonbasic with a nonzero dual and reports OPTIMAL in 0 iterations for an unbounded LP', regex=True,
       repro='history: min, solve, setIntParam(OBJSENSE,max), changeRangeReal(vec) making the only row free, optimize -> OPTIMAL 150 (LP is unbounded)')
-open_(['C06'], r'(basis\.bind\.after\.remove.*|exception\.remove.*Invalid.*)',
+open_(['C06', 'C04'], r'(basis\.bind\.after[.\-]remove.*|exception\.remove.*Invalid.*|basis\.exception\.after-modification:.*)',
       'after removing rows while the LP is loaded with a basis, getBasisInd() reads stale basis ids (wrong indices or SPxException "Invalid index") although hasBasis() stays true', regex=True)
 open_(['C05'], r'(mult\.(value|nonfinite)\.rep=row\.(scaled|unscaled)(\.internal)?|(invcol|solve)\.(residual|nonfinite)\.rep=row\.scaled(\.internal)?):.*',
       'row representation: multBasis returns wrong values with and without scaling (accumulates into a DSVector with duplicate indices, adds scaled and unscaled columns), and on a scaled LP getBasisInverseColReal (drops an spxLdexp result) and getBasisInverseTimesVecReal are wrong - upstream "@todo does not work correctly"; the other queries of the row representation are judged normally', regex=True)
